@@ -413,8 +413,24 @@ pub fn prove_line(line: &str) -> String {
                         let mut rng3 = ScriptRng::scripted(0xabc, draws.clone());
                         match p3.prove_with_version(&mut rng3, &cb, ver) {
                             Ok((proof3, pis3)) => {
+                                // the decoded verifier takes the SAME decisions as the original one: accepts the honest proof,
+                                // rejects it with a changed / truncated / extended public-input vector (when there are any)
+                                let mut same_decisions = v3.verify_with_version(&proof, &pis, ver).is_ok()
+                                    && verifier.verify_with_version(&proof3, &pis3, ver).is_ok();
+                                let mut variants: Vec<Vec<BlsScalar>> = vec![];
+                                if !pis.is_empty() {
+                                    let mut m = pis.clone(); m[0] += BlsScalar::one(); variants.push(m);
+                                    let mut m = pis.clone(); let l = m.len() - 1; m[l] += BlsScalar::one(); variants.push(m);
+                                    variants.push(pis[..pis.len() - 1].to_vec());
+                                }
+                                let mut m = pis.clone(); m.push(BlsScalar::zero()); variants.push(m);
+                                for m in &variants {
+                                    if v3.verify_with_version(&proof, m, ver).is_ok() != verifier.verify_with_version(&proof, m, ver).is_ok() {
+                                        same_decisions = false;
+                                    }
+                                }
                                 if proof3.to_bytes() == proof.to_bytes() && pis3 == pis && v3.verify_with_version(&proof3, &pis3, ver).is_ok()
-                                    && p3.to_bytes() == prover.to_bytes() && v3.to_bytes() == vb {
+                                    && p3.to_bytes() == prover.to_bytes() && v3.to_bytes() == vb && same_decisions {
                                     "ok".to_string()
                                 } else {
                                     "differ".to_string()
